@@ -191,7 +191,7 @@ static int run_c05r(long from, long to, const char * listfile) {
 }
 
 // ---------------------------------------------------------------------------------------------------------------- C08
-struct Base { std::vector<uint8_t> file; std::vector<size_t> cont_end; std::vector<size_t> cont_cum; std::vector<size_t> obj_end; sg::Seq seq; sg::Config cfg; bool initial_header; };
+struct Base { std::vector<uint8_t> file; std::vector<size_t> cont_end; std::vector<size_t> cont_cum; std::vector<size_t> obj_end; std::vector<size_t> obj_need; sg::Seq seq; sg::Config cfg; bool initial_header; };
 
 static void make_base(uint64_t seed, int b, Base & B, const std::string & path) {
     static const int levels[] = {0, 1, 6, 9}; static const uint32_t cs[] = {16, 100, 1000};
@@ -222,7 +222,10 @@ static void make_base(uint64_t seed, int b, Base & B, const std::string & path) 
     for (size_t i = 0; i < B.seq.objs.size(); i++) {
         std::vector<uint8_t> enc = sg::encode(B.seq.objs[i], B.seq.cis[i]);
         uint32_t osz = twin::get32(&enc[8]);
-        B.obj_end.push_back(off + osz);      // object complete when its objectSize bytes are available (padding is skipped, not read)
+        B.obj_end.push_back(off + osz);      // object wholly stored when its objectSize bytes are available (alignment padding after it is skipped, not read)
+        // last byte the decoder actually READS (the tail of an object can be slack that is only skipped, e.g. the unused part of the
+        // serial-event union): an object cut inside that slack is intact, so delivering it is tolerated but not demanded
+        { ObjectHeaderBase * d = B.seq.cis[i]->make(); MemFile in; in.buf = enc; in.trace = true; d->read(in); size_t need = 0; for (auto & c : in.rd) need = std::max(need, c.off + c.n); delete d; B.obj_need.push_back(off + std::min<size_t>(need, osz)); }
         off += enc.size();
     }
 }
@@ -233,7 +236,7 @@ static int run_c08(uint64_t seed, long from, long to, int nbase, bool count_only
     std::vector<Base *> bases; std::vector<long> start; long total = 0;
     for (int b = 0; b < nbase; b++) { Base * B = new Base; make_base(seed, b, *B, path); bases.push_back(B); start.push_back(total); total += (long)B->file.size() + 1; }
     if (count_only) { printf("%ld\n", total); return 0; }
-    long sessions = 0, threw = 0, delivered = 0, nonempty = 0; std::set<long> distinct_counts; std::string sample;
+    long sessions = 0, threw = 0, delivered = 0, nonempty = 0, in_band = 0; std::set<long> distinct_counts; std::string sample;
     for (long idx = from; idx < to && idx < total; idx++) {
         hc::begin_case(std::to_string(idx));
         int b = 0; while (b + 1 < nbase && start[b + 1] <= idx) b++;
@@ -245,6 +248,7 @@ static int run_c08(uint64_t seed, long from, long to, int nbase, bool count_only
         // expectation from the independent container walk
         size_t A = 0; for (size_t i = 0; i < B.cont_end.size(); i++) if (B.cont_end[i] <= L) A = B.cont_cum[i]; else break;
         size_t expect = 0; while (expect < B.obj_end.size() && B.obj_end[expect] <= A) expect++;
+        size_t expect_max = expect; if (expect_max < B.obj_need.size() && B.obj_need[expect_max] <= A) expect_max++;     // at most one object can be cut inside its skipped tail
         std::string key;
         try {
             File f;
@@ -255,7 +259,7 @@ static int run_c08(uint64_t seed, long from, long to, int nbase, bool count_only
                 for (;; i++) {
                     ObjectHeaderBase * o = f.read();
                     if (!o) break;
-                    if (i >= expect) { if (key.empty()) key = "object-beyond-stored-containers"; ctx += " extra object " + std::to_string(i) + " type " + std::to_string((unsigned)o->objectType); delete o; continue; }
+                    if (i >= expect_max) { if (key.empty()) key = "object-beyond-stored-containers"; ctx += " extra object " + std::to_string(i) + " type " + std::to_string((unsigned)o->objectType); delete o; continue; }
                     const vr::ClassInfo * ci = ol::class_of(o);
                     if (ci != B.seq.cis[i]) { if (key.empty()) key = "class-changed"; }
                     else { Obj a(ci, B.seq.objs[i]), bb(ci, o); auto d = ol::compare(a, bb); if (!d.empty() && key.empty()) { key = std::string("object-modified:") + ci->name + ":" + d[0].path; ctx += " wrote " + d[0].a + " read " + d[0].b; } }
@@ -263,6 +267,8 @@ static int run_c08(uint64_t seed, long from, long to, int nbase, bool count_only
                 }
                 if (i < expect && key.empty()) { key = "objects-of-complete-containers-missing"; ctx += " delivered " + std::to_string(i) + " expected " + std::to_string(expect); }
                 if (i > 0) nonempty++;
+                if (i > expect) in_band++;
+                printf("@cnt %d %zu %zu\n", b, L, i);
                 distinct_counts.insert((long)b * 1000 + (long)i);
                 f.close();
             } else if (L >= 144 + 32 && expect > 0) {
@@ -276,7 +282,7 @@ static int run_c08(uint64_t seed, long from, long to, int nbase, bool count_only
         wd::disarm();
     }
     unlink(path.c_str());
-    std::ostringstream o; o << "{\"sessions\":" << sessions << ",\"open_threw\":" << threw << ",\"objects_delivered\":" << delivered << ",\"sessions_with_objects\":" << nonempty << ",\"distinct_outcomes\":" << distinct_counts.size() << ",\"bases\":" << nbase << ",\"samples\":[" << hc::jstr(sample) << "]}";
+    std::ostringstream o; o << "{\"sessions\":" << sessions << ",\"open_threw\":" << threw << ",\"objects_delivered\":" << delivered << ",\"sessions_with_objects\":" << nonempty << ",\"distinct_outcomes\":" << distinct_counts.size() << ",\"delivered_although_cut_in_skipped_tail\":" << in_band << ",\"bases\":" << nbase << ",\"samples\":[" << hc::jstr(sample) << "]}";
     hc::stat(o.str());
     return 0;
 }
@@ -325,15 +331,15 @@ static int run_ids(long from, long to, const char * listfile) {
 struct C10Base {
     twin::Bytes file; twin::Bytes stream; std::vector<size_t> cpos; std::vector<size_t> cend;   // container start / end (incl. pad) offsets in file
     std::vector<size_t> opos;                                                                     // object start offsets in stream (by header walk)
-    long n_fbyte, n_f16, n_f32, n_ftrunc, n_fblock, n_sbyte, n_s16, n_s32, n_strunc, n_sblock, n_osize, n_cfield, n_combo;
-    long total() const { return n_fbyte + n_f16 + n_f32 + n_ftrunc + n_fblock + n_sbyte + n_s16 + n_s32 + n_strunc + n_sblock + n_osize + n_cfield + n_combo; }
+    long n_fbyte, n_f16, n_f32, n_ftrunc, n_fblock, n_sbyte, n_s16, n_s32, n_strunc, n_sblock, n_osize, n_cfield, n_combo, n_ccombo;
+    long total() const { return n_fbyte + n_f16 + n_f32 + n_ftrunc + n_fblock + n_sbyte + n_s16 + n_s32 + n_strunc + n_sblock + n_osize + n_cfield + n_combo + n_ccombo; }
     // segments in the order c10_mutant() consumes them; bulk segments are strided in the quick tier, targeted ones always run completely
-    void segs(long * n) const { long v[13] = {n_fbyte, n_f16, n_f32, n_ftrunc, n_fblock, n_sbyte, n_s16, n_s32, n_strunc, n_sblock, n_osize, n_combo, n_cfield}; for (int i = 0; i < 13; i++) n[i] = v[i]; }
+    void segs(long * n) const { long v[14] = {n_fbyte, n_f16, n_f32, n_ftrunc, n_fblock, n_sbyte, n_s16, n_s32, n_strunc, n_sblock, n_osize, n_combo, n_ccombo, n_cfield}; for (int i = 0; i < 14; i++) n[i] = v[i]; }
     static bool bulk(int seg) { return seg <= 3 || (seg >= 5 && seg <= 8); }
-    long bulk_total() const { long n[13]; segs(n); long t = 0; for (int i = 0; i < 13; i++) if (bulk(i)) t += n[i]; return t; }
+    long bulk_total() const { long n[14]; segs(n); long t = 0; for (int i = 0; i < 14; i++) if (bulk(i)) t += n[i]; return t; }
     long targeted_total() const { return total() - bulk_total(); }
     // index within the bulk (or targeted) sub-space -> unified index for c10_mutant
-    long unify(long k, bool want_bulk) const { long n[13]; segs(n); long base = 0; for (int i = 0; i < 13; i++) { if (bulk(i) == want_bulk) { if (k < n[i]) return base + k; k -= n[i]; } base += n[i]; } return total() - 1; }
+    long unify(long k, bool want_bulk) const { long n[14]; segs(n); long base = 0; for (int i = 0; i < 14; i++) { if (bulk(i) == want_bulk) { if (k < n[i]) return base + k; k -= n[i]; } base += n[i]; } return total() - 1; }
 };
 static const uint8_t BV8[] = {0x00, 0x01, 0x7f, 0x80, 0xff};
 static const uint64_t BVW[] = {0, 1, 0x7fffffffffffffffULL, 0x8000000000000000ULL, 0xffffffffffffffffULL};
@@ -356,7 +362,8 @@ static void c10_prepare(C10Base & b) {
     b.n_sbyte = 2 * 5 * (long)m; b.n_s16 = 7 * (long)(m / 2); b.n_s32 = 2 * 7 * (long)(m / 4); b.n_strunc = 2 * ((long)m + 1); b.n_sblock = 3 * (long)b.opos.size();
     b.n_osize = 21 * (long)b.opos.size() * 2; b.n_cfield = 2 * 16 * (long)std::max<size_t>(1, b.cpos.size() ? 1 : 0);
     b.n_combo = 2 * 6 * 8 * 3 * (long)b.opos.size();
-    if (m == 0) b.n_sbyte = b.n_s16 = b.n_s32 = b.n_strunc = b.n_sblock = b.n_osize = b.n_cfield = b.n_combo = 0;
+    b.n_ccombo = 2 * 7 * 4 * 3 * (long)b.cpos.size();
+    if (m == 0) b.n_sbyte = b.n_s16 = b.n_s32 = b.n_strunc = b.n_sblock = b.n_osize = b.n_cfield = b.n_combo = b.n_ccombo = 0;
 }
 
 static void put_le(twin::Bytes & v, size_t off, uint64_t val, int w) { for (int i = 0; i < w && off + i < v.size(); i++) v[off + i] = (uint8_t)(val >> (8 * i)); }
@@ -413,6 +420,17 @@ static twin::Bytes c10_mutant(const C10Base & b, long j, std::string & kind) {
         put_le(s, b.opos[i] + 4, hs[k % 6], 2); put_le(s, b.opos[i] + 8, os[(k / 6) % 8], 4); if ((k / 48) % 3) put_le(s, b.opos[i] + 6, hv[(k / 48) % 3], 2);
         return rewrap(b, s, level);
     } j -= b.n_combo;
+    if (j < b.n_ccombo) {
+        // several header fields of one container corrupted together: objectSize x uncompressedSize x method (file level, after re-wrapping)
+        kind = "container-header-combo"; int level = (j % 2) ? 6 : 0; j /= 2;
+        twin::Bytes w = rewrap(b, s, level);
+        std::vector<size_t> cp; { size_t p = 144; while (p + 32 <= w.size()) { uint32_t o = twin::get32(&w[p + 8]); if (o < 32) break; cp.push_back(p); p += o + o % 4; } }
+        size_t i = (size_t)(j / 84); long k = j % 84; if (cp.empty()) return w; if (i >= cp.size()) i = cp.size() - 1;
+        size_t p = cp[i]; uint32_t osz = twin::get32(&w[p + 8]), us = twin::get32(&w[p + 24]);
+        const uint32_t os[] = {0, 16, 31, 32, osz - 1, osz + 1, 0xffffffffu}; const uint32_t uss[] = {0, us - 1, us + 1, 0x7fffffffu}; static const uint16_t ms[] = {0, 1, 2};
+        put_le(w, p + 8, os[k % 7], 4); put_le(w, p + 24, uss[(k / 7) % 4], 4); put_le(w, p + 16, ms[(k / 28) % 3], 2);
+        return w;
+    } j -= b.n_ccombo;
     {   // inconsistent container fields on the first container, method 0 and 2 wrapping
         kind = "container-field"; int level = (j % 2) ? 6 : 0; j /= 2;
         twin::Bytes w = rewrap(b, s, level);
